@@ -13,8 +13,12 @@
    Two places of the code are changed by the fix patches fixes/C12-*.diff; the [variant] record
    selects the code before or after each fix, so that the refutation witnesses about the
    original code stay machine-checked:
-     v_fb_fix      ReceiveFeedback only ever replaces an existing state-table entry
-                   (Load + CompareAndSwap loop) / original: Swap() first, test `loaded` afterwards
+     v_fb_load     ReceiveFeedback Load()s and rejects a missing entry before it writes
+                   / original: Swap() first, test `loaded` afterwards
+     v_fb_cas      ... and then writes with CompareAndSwap in a loop, so that it only ever replaces
+                   an existing entry / [loadstore]: a plain Store() after the Load() (a seeded
+                   mutation of the fix: it re-creates an entry that a concurrent finish deleted)
+     v_fb_fix      = v_fb_load && v_fb_cas: the fix as committed
      v_closed_fix  ReceiveInsert re-tests ctx/freezeCtx after it got its token and gives the
                    token back, ReceiveFeedback tests them before its select / original: only the
                    select arms, chosen at random among the ready ones *)
@@ -81,9 +85,11 @@ Inductive label :=
 | StopCancel                     (* Stop(): cancel() - cancels ctx and its child freezeCtx *)
 | StopFinish.                    (* Stop(): wg.Wait() returned; close(input); globalReactor = nil *)
 
-Record variant := Variant { v_fb_fix : bool; v_closed_fix : bool }.
-Definition original := Variant false false.
-Definition fixed := Variant true true.
+Record variant := Variant { v_fb_load : bool; v_closed_fix : bool; v_fb_cas : bool }.
+Definition v_fb_fix (v : variant) : bool := v_fb_load v && v_fb_cas v.
+Definition original := Variant false false true.
+Definition fixed := Variant true true true.
+Definition loadstore := Variant true true false.
 
 Record state := St {
   cap : nat;                 (* maxTokens = cap(tokenPool) = cap(input) *)
@@ -225,7 +231,7 @@ Definition step (v : variant) (s : state) (l : label) : option state :=
   (* ---- ReceiveFeedback ---- *)
   | FbCall i =>
       if nilled s then Some (ret (OFb i) RNotInit s)
-      else Some (take_from_client i (call_add (if v_fb_fix v then PFbLoad i else PFbSwap i) s))
+      else Some (take_from_client i (call_add (if v_fb_load v then PFbLoad i else PFbSwap i) s))
   | FbLoad i =>
       if at_pc (PFbLoad i) s then
         if nilled s then Some (crash (PFbLoad i) (OFb i) s)
@@ -238,10 +244,13 @@ Definition step (v : variant) (s : state) (l : label) : option state :=
         if nilled s then Some (crash (PFbCas i) (OFb i) s)
         else if tracked i s
              then Some (call_mov (PFbCas i) (if v_closed_fix v then PFbChk i else PFbSel i) s)
-             else Some (call_mov (PFbCas i) (PFbLoad i) s)
+             else if v_fb_cas v
+             then Some (call_mov (PFbCas i) (PFbLoad i) s)               (* CompareAndSwap failed: load again *)
+             else Some (with_table (i :: table s)                        (* [loadstore]: Store() creates the entry *)
+                          (call_mov (PFbCas i) (if v_closed_fix v then PFbChk i else PFbSel i) s))
       else None
   | FbSwap i =>
-      if v_fb_fix v then None else
+      if v_fb_load v then None else
       if at_pc (PFbSwap i) s then
         if nilled s then Some (crash (PFbSwap i) (OFb i) s)
         else if tracked i s
